@@ -294,6 +294,14 @@ func checkC14(r *Run) {
 			c.RequiredFields = append(c.RequiredFields, pick(3))
 			c.SensitiveFields = append(c.SensitiveFields, pick(4))
 			c.Sort, c.SortSet = true, true
+			// override entries that match no emitted package exactly but are prefixes of one another and of emitted paths
+			if c.ImportPathOverrides == nil {
+				c.ImportPathOverrides = map[string]string{}
+			}
+			for k, v := range map[string]string{"github.com/hashicorp": "example.com/mirror/hashicorp", "github.com/hashicorp/terraform-plugin-framework": "example.com/mirror/framework",
+				"github.com": "example.com/mirror/github", "verif": "example.com/mirror/verif", "verif/rt": "example.com/mirror/rt"} {
+				c.ImportPathOverrides[k] = v
+			}
 			e.ExtraParams = []string{"exclude_fields=" + pick(5) + "+" + pick(6), "computed_fields=" + pick(7), "required_fields=" + pick(8), "sensitive=" + pick(9), "sort=false"}
 			e.Tags = append(e.Tags, "both-channels")
 			return descgen.Rename(e, n+"bothchannels")
